@@ -58,6 +58,8 @@ fn new_ctx<'a>(idx: &'a Index, module: &[String], self_ty: Option<String>, ret: 
         value_depth: 0,
         prelude: vec![],
         mut_self: false,
+        full_ret_lean: None,
+        out_params: vec![],
     }
 }
 
@@ -68,9 +70,7 @@ fn translate_fn(idx: &Index, fi: &FnInfo) -> R<Translated> {
     if fi.cfg_rand {
         return Err("rand-gated (sampler)".into());
     }
-    if fi.param_ref.iter().any(|r| *r == 2) {
-        return Err("&mut parameter".into());
-    }
+
     let mut cx = new_ctx(idx, &fi.module, fi.self_ty.clone(), fi.ret.clone(), fi.tybind.clone(), &fi.lean_name);
     let mut binders = String::new();
     if fi.self_kind != SelfKind::None {
@@ -98,9 +98,22 @@ fn translate_fn(idx: &Index, fi: &FnInfo) -> R<Translated> {
     if fi.self_kind == SelfKind::MutRef {
         let st = fi.tybind.get("Self").cloned().ok_or("no Self")?;
         cx.mut_self = true;
+        cx.out_params.push("self".into());
         cx.bind("self", st.clone());
         ret_s = format!("({} × {})", ret_s, cx.lean_ty(&st)?);
     }
+    for (i, (p, t)) in fi.params.iter().enumerate() {
+        if fi.param_ref.get(i).copied().unwrap_or(0) == 2 {
+            let name = match p {
+                syn::Pat::Ident(id) => id.ident.to_string(),
+                _ => return Err("complex &mut parameter".into()),
+            };
+            cx.mut_self = true;
+            cx.out_params.push(name);
+            ret_s = format!("({} × {})", ret_s.trim_start_matches('(').trim_end_matches(')'), cx.lean_ty(t)?);
+        }
+    }
+    cx.full_ret_lean = Some(ret_s.clone());
     let body = tr_stmts(&mut cx, &fi.body.stmts, &Cont::Value(Some(fi.ret.clone())))?;
     let sf = "⟪SF⟫";
     let hash = fnv(&fi.body.to_token_stream().to_string());
